@@ -1,10 +1,98 @@
-import MV.Model.Collection.Order
-import MV.Spec.Collection
+import MV.Lemmas.Collection.Dedup
+import MV.Lemmas.Collection.Filter
+import MV.Lemmas.Collection.Batches
+import MV.Lemmas.Collection.Equal
+import MV.Lemmas.Collection.Maps
+import MV.Lemmas.Collection.MinMax
+import MV.Lemmas.Collection.FindLoop
+import MV.Lemmas.Collection.Random
+import MV.Lemmas.Collection.Judge
+import MV.Lemmas.Collection.Loop
+import MV.Lemmas.Collection.Kahn
+import MV.Lemmas.Collection.Misc
 /-!
 # C17 — collection helpers obey their defining laws and leave inputs alone
+
+The theorems are about the functions of `MV.Model.Coll` that the oracle `oracle-c17` executes for the
+suites `c17-edit` / `c17-query` (compared line by line with `toolkit/collection`), about the
+specification functions of `MV.Spec.Coll` that the `-spec` suites execute, and about the `Bool`
+predicates of `MV.Spec.Coll` with which the suites `c17-order`, `c17-random`, `c17-topo` judge outputs
+that depend on map iteration order, `sort.Slice` or `math/rand`.
+
+Slices are `Option (List Int)` (`none` = nil), maps association lists with distinct keys whose list
+order is the iteration order.  All statements are for every input (unbounded), every callback
+(where a law needs an equivalence the hypothesis is stated), every iteration order / draw list.
 -/
 namespace MV.Props.C17
-open MV.Model.Coll MV.Spec.Coll
+open MV.Model.Coll MV.Spec.Coll MV.Lemmas.Coll
+
+/-! ## duplicate.go -/
+
+/-- `DeduplicateSlice` returns the first occurrence of every distinct element, in order (`nil` stays `nil`) -/
+theorem C17_dedup_first_occurrence (s : Sl) : deduplicateSlice s = s.map firstOcc := by
+  cases s with
+  | none => rfl
+  | some l =>
+    simp only [deduplicateSlice, Option.map_some]
+    by_cases h : l.length < 2
+    · simp only [h, if_true]
+      match l, h with
+      | [], _ => rfl
+      | [x], _ => simp [firstOcc, firstOccBy]
+    · simp only [h, if_false, dedupGo_nil]
+
+/-- what "first occurrences in order and nothing else" means: the empty slice has none; appending an element
+    keeps it iff it did not occur before and changes nothing else -/
+theorem C17_firstOcc_law (eqv : Int → Int → Bool) :
+    firstOccBy eqv [] = [] ∧
+    ∀ (a : List Int) (x : Int), firstOccBy eqv (a ++ [x]) =
+      if a.any (fun y => eqv y x) then firstOccBy eqv a else firstOccBy eqv a ++ [x] :=
+  ⟨rfl, firstOccBy_append_singleton eqv⟩
+
+/-- no duplicates, the same members, original order -/
+theorem C17_firstOcc_nodup_mem_sublist (l : List Int) :
+    (firstOcc l).Nodup ∧ (∀ x, x ∈ firstOcc l ↔ x ∈ l) ∧ (firstOcc l).Sublist l :=
+  ⟨nodup_firstOcc l, mem_firstOcc l, firstOccBy_sublist _ l⟩
+
+/-- in-place = copying: what `DeduplicateSliceInPlace` leaves in `*s` is what `DeduplicateSlice` returns -/
+theorem C17_dedup_inplace_eq_copying (s : Sl) :
+    (deduplicateSliceInPlace s).map InPlace.result = deduplicateSlice s := by
+  cases s with
+  | none => rfl
+  | some l =>
+    simp only [deduplicateSliceInPlace, deduplicateSlice]
+    by_cases h : l.length < 2
+    · simp [h, InPlace.result]
+    · simp only [h, if_false, Option.map_some, dedupInPlace_result]
+
+/-- `DeduplicateSliceWithCompare` with an equivalence (symmetric, transitive) keeps the first element of every class -/
+theorem C17_dedup_compare_first_occurrence (s : Sl) (cmp : Int → Int → Bool) (hs : ∀ a b, cmp a b = cmp b a)
+    (ht : ∀ a b c, cmp a b = true → cmp b c = true → cmp a c = true) :
+    deduplicateSliceWithCompare s (some cmp) = s.map (firstOccBy cmp) := by
+  cases s with
+  | none => rfl
+  | some l =>
+    simp only [deduplicateSliceWithCompare, Option.map_some]
+    by_cases h : l.length < 2
+    · simp only [h, if_true]
+      match l, h with
+      | [], _ => rfl
+      | [x], _ => simp [firstOccBy]
+    · simp only [h, if_false, dedupCmpGo_nil cmp hs ht]
+
+/-- in-place = copying for the compare variants, for *every* callback (this is the statement the
+    original `DeduplicateSliceInPlaceWithCompare` violated, see findings.d/C17.json) -/
+theorem C17_dedup_compare_inplace_eq_copying (s : Sl) (cmp : Int → Int → Bool) :
+    (deduplicateSliceInPlaceWithCompare s cmp).map InPlace.result = deduplicateSliceWithCompare s (some cmp) := by
+  cases s with
+  | none => rfl
+  | some l =>
+    simp only [deduplicateSliceInPlaceWithCompare, deduplicateSliceWithCompare]
+    by_cases h : l.length < 2
+    · simp [h, InPlace.result]
+    · simp only [h, if_false, Option.map_some, dedupCmpInPlace_result]
+
+/-! ## clone.go -/
 
 theorem C17_copyList_eq (l : List Int) : copyList l = l := by
   induction l with
@@ -16,5 +104,518 @@ theorem C17_clone_eq (s : Sl) : cloneSlice s = s := by
   cases s with
   | none => rfl
   | some l => simp [cloneSlice, C17_copyList_eq]
+
+/-- `CloneMap` of a map (distinct keys) is that map -/
+theorem C17_cloneMap_eq (m : Mp) (hd : (keysOf m.ents).Nodup) : cloneMap m = m := by
+  cases m with
+  | none => rfl
+  | some l =>
+    simp only [cloneMap, Option.map_some]
+    rw [insertAll_append l [] (by simpa [Mp.ents] using hd)]
+    simp
+
+theorem C17_cloneSlices_eq (ss : Option (List Sl)) : cloneSlices ss = ss := by
+  cases ss with
+  | none => rfl
+  | some l =>
+    simp only [cloneSlices, Option.map_some]
+    congr 1
+    induction l with
+    | nil => rfl
+    | cons x xs ih => simp [C17_clone_eq, ih]
+
+theorem C17_cloneSliceN_eq (l : List Int) (n : Int) :
+    cloneSliceN (some l) n = some (List.replicate n.toNat (some l)) := by
+  simp only [cloneSliceN, C17_clone_eq]
+  by_cases h : n ≤ 0
+  · have : n.toNat = 0 := by omega
+    simp [h, this]
+  · simp [h]
+
+/-! ## merge.go -/
+
+theorem C17_appendAll_eq (ss : List Sl) : ∀ acc, appendAll acc ss = acc ++ (ss.map Sl.els).flatten := by
+  induction ss with
+  | nil => intro acc; simp [appendAll]
+  | cons s ss ih => intro acc; simp [appendAll, ih]
+
+/-- `MergeSlices` = append of all arguments (`nil` without arguments) -/
+theorem C17_merge_eq_append (ss : List Sl) :
+    mergeSlices (some ss) = if ss.length = 0 then none else some ((ss.map Sl.els).flatten) := by
+  simp only [mergeSlices, C17_appendAll_eq, List.nil_append]
+
+theorem C17_mergeSlice_eq (s : Sl) : mergeSlice s = if s.els.length = 0 then none else some s.els := by
+  simp [mergeSlice, C17_copyList_eq]
+
+/-- one step of `MergeMaps` (later maps win): after merging `m` into `r`, a key of `m` has `m`'s value, every
+    other key keeps the value it had -/
+theorem C17_mergeMaps_last_wins (r m : List (Int × Int)) (hd : (keysOf m).Nodup) (k : Int) :
+    (insertAll r m).lookup k = if mhas m k then m.lookup k else r.lookup k :=
+  lookup_insertAll m r hd k
+
+/-- one step of `MergeMapsWithSkip` (earlier maps win) -/
+theorem C17_mergeMapsWithSkip_first_wins (r m : List (Int × Int)) (hd : (keysOf m).Nodup) (k : Int) :
+    (insertNew r m).lookup k = if mhas r k then r.lookup k else m.lookup k :=
+  lookup_insertNew m r hd k
+
+/-- `MergeMaps` over any number of maps: every key ends up with the value of the last map that contains it -/
+theorem C17_mergeMaps_lookup (ms : List Mp) (hne : ms ≠ []) (hd : ∀ m ∈ ms, (keysOf (Mp.ents m)).Nodup) (k : Int) :
+    ∃ r, mergeMaps (some ms) = some r ∧
+      r.lookup k = match ms.reverse.find? (fun m => mhas (Mp.ents m) k) with
+        | some m => (Mp.ents m).lookup k
+        | none => none := by
+  have h0 : ¬ ms.length = 0 := fun h => hne (List.length_eq_zero_iff.mp h)
+  refine ⟨mergeMapsGo [] ms, by simp [mergeMaps, h0], ?_⟩
+  rw [lookup_mergeMapsGo ms [] hd k]
+  cases ms.reverse.find? (fun m => mhas (Mp.ents m) k) <;> simp
+
+/-- `MergeMapsWithSkip` over any number of maps: every key keeps the value of the first map that contains it -/
+theorem C17_mergeMapsWithSkip_lookup (ms : List Mp) (hne : ms ≠ []) (hd : ∀ m ∈ ms, (keysOf (Mp.ents m)).Nodup) (k : Int) :
+    ∃ r, mergeMapsWithSkip (some ms) = some r ∧
+      r.lookup k = match ms.find? (fun m => mhas (Mp.ents m) k) with
+        | some m => (Mp.ents m).lookup k
+        | none => none := by
+  have h0 : ¬ ms.length = 0 := fun h => hne (List.length_eq_zero_iff.mp h)
+  refine ⟨mergeSkipGo [] ms, by simp [mergeMapsWithSkip, h0], ?_⟩
+  rw [lookup_mergeSkipGo ms [] hd k]
+  have : mhas [] k = false := rfl
+  rw [this]
+  rfl
+
+/-! ## convert.go -/
+
+/-- the index loop of `ConvertSliceToBatches` produces the consecutive chunks -/
+theorem C17_batches_eq_chunks (l : List Int) (n : Nat) : batchesGo l n l.length 0 = chunks n l := by
+  rw [batchesGo_eq_chunk]; simp [chunks]
+
+/-- joining the batches gives the input back -/
+theorem C17_batches_join (l : List Int) (n : Int) (hn : 0 < n) (hl : l ≠ []) :
+    ∃ bs, convertSliceToBatches (some l) n = some bs ∧ bs.flatten = l := by
+  have h0 : ¬ l.length = 0 := fun h => hl (List.length_eq_zero_iff.mp h)
+  have h1 : ¬ ((Sl.els (some l)).length = 0 ∨ n ≤ 0) := by
+    simp only [Sl.els, Option.getD_some]; omega
+  refine ⟨_, by unfold convertSliceToBatches; rw [if_neg h1], ?_⟩
+  simp only [Sl.els, Option.getD_some]
+  rw [C17_batches_eq_chunks]
+  exact chunk_join n.toNat (by omega) _ _ (Nat.le_refl _)
+
+/-- every batch but the last has exactly `n` elements, the last one between 1 and `n` -/
+theorem C17_batches_sizes (l : List Int) (n : Nat) (hn : 1 ≤ n) :
+    (∀ b ∈ (chunks n l).dropLast, b.length = n) ∧ (∀ b ∈ (chunks n l).getLast?, 1 ≤ b.length ∧ b.length ≤ n) :=
+  (batchSizesOk_iff n _).mp (chunk_sizes n hn _ _ (Nat.le_refl _))
+
+theorem C17_batches_nil (s : Sl) (n : Int) (h : s.els = [] ∨ n ≤ 0) : convertSliceToBatches s n = none := by
+  have : s.els.length = 0 ∨ n ≤ 0 := by
+    rcases h with h | h
+    · exact Or.inl (by simp [h])
+    · exact Or.inr h
+  unfold convertSliceToBatches
+  rw [if_pos this]
+
+/-- `ConvertSliceToMap` / `ConvertSliceToBoolMap`: the key set consists of the distinct values of the slice -/
+theorem C17_sliceToMap_keys (l : List Int) (hne : l ≠ []) :
+    convertSliceToMap (some l) = some (firstOcc l) ∧ convertSliceToBoolMap (some l) = some (firstOcc l) := by
+  have h0 : ¬ l.length = 0 := fun h => hne (List.length_eq_zero_iff.mp h)
+  simp [convertSliceToMap, convertSliceToBoolMap, Sl.els, h0, setOf_nil]
+
+/-- `ConvertSliceToIndexMap`: exactly the pairs `(i, s[i])` -/
+theorem C17_sliceToIndexMap (l : List Int) :
+    convertSliceToIndexMap (some l) = some ((indexed l).map (fun p => ((p.1 : Int), p.2))) := by
+  simp [convertSliceToIndexMap, Sl.els, enumFrom_zero_eq_indexed]
+
+/-- `InvertMap` on a map whose values are pairwise different swaps every entry (so inverting twice restores it) -/
+theorem C17_invert_injective (m : List (Int × Int)) (hv : (valsOf m).Nodup) :
+    invertMap (some m) = some (m.map (fun e => (e.2, e.1))) := by
+  simp only [invertMap, Option.map_some]
+  rw [invertGo_append m [] (by simpa [keysOf] using hv)]
+  simp
+
+/-- `ReverseSlice` leaves the reversed list in the same backing array -/
+theorem C17_reverse_eq (s : Sl) : (reverseSlice s).map InPlace.result = s.map List.reverse := by
+  cases s with
+  | none => rfl
+  | some l =>
+    simp only [reverseSlice, Option.map_some, InPlace.result, reverseFrom_eq_reverse]
+    congr 1
+    rw [List.take_of_length_le (by simp)]
+
+/-- reversing twice restores the slice -/
+theorem C17_reverse_involutive (l : List Int) :
+    ((reverseSlice (some l)).map InPlace.result).bind (fun r => (reverseSlice (some r)).map InPlace.result) = some l := by
+  rw [C17_reverse_eq]
+  simp only [Option.map_some, Option.bind_some]
+  rw [C17_reverse_eq]
+  simp
+
+/-! ## filter.go / drop.go -/
+
+/-- `FilterOutByCondition` = `filter (¬ condition)` -/
+theorem C17_filter_spec (l : List Int) (c : Int → Bool) :
+    filterOutByCondition (some l) (some c) = some (l.filter (fun v => !c v)) := rfl
+
+/-- in-place = copying: `DropSliceByCondition` leaves in `*s` what `FilterOutByCondition` returns -/
+theorem C17_drop_condition_inplace_eq_copying (s : Sl) (c : Option (Int → Bool)) :
+    (dropSliceByCondition s c).map InPlace.result = filterOutByCondition s c := by
+  cases s with
+  | none => cases c <;> rfl
+  | some l =>
+    cases c with
+    | none => simp [dropSliceByCondition, filterOutByCondition, InPlace.result]
+    | some c =>
+      simp only [dropSliceByCondition, filterOutByCondition, Option.map_some]
+      rw [compact_stateless (fun _ v => !c v) l]
+      exact congrArg some (enum_filter_value (fun v => !c v) l 0)
+
+/-- `FilterOutByIndices` returns the elements whose index is not listed -/
+theorem C17_filter_indices_spec (l : List Int) (idx : Sl) :
+    (filterOutByIndices (some l) idx).els = dropIdx l idx.els := filterOutByIndices_spec l idx
+
+/-- `DropSliceByIndices` leaves the same elements in `*s` (in-place = copying) -/
+theorem C17_drop_indices_inplace_eq_copying (l : List Int) (idx : Sl) :
+    (dropSliceByIndices (some l) idx).map InPlace.result = some (filterOutByIndices (some l) idx).els := by
+  rw [dropSliceByIndices_spec, filterOutByIndices_spec]
+
+/-- `DropSliceOverlappingElements` removes exactly the elements that match a member of the other slice -/
+theorem C17_drop_overlapping_spec (l o : List Int) (h : Int → Int → Bool) :
+    (dropSliceOverlappingElements (some l) (some o) (some h)).map InPlace.result
+      = some (l.filter (fun v => !o.any (fun x => h v x))) := by
+  simp only [dropSliceOverlappingElements, Option.map_some]
+  rw [compact_stateless (fun _ v => !inSlice o v h) l]
+  exact congrArg some (enum_filter_value (fun v => !inSlice o v h) l 0)
+
+theorem C17_clear (s : Sl) : (clearSlice s).map InPlace.result = s.map (fun _ => []) := by
+  cases s <;> simp [clearSlice, InPlace.result]
+
+/-! ## contains.go -/
+
+/-- the model of `EqualSlice` is the specification the `-spec` suite runs -/
+theorem C17_equalSlice_eq_spec (s1 s2 : Sl) (h : Int → Int → Bool) : equalSlice s1 s2 h = equalBy h s1.els s2.els :=
+  equalSlice_eq_spec s1 s2 h
+
+/-- `EqualSlice` ⇔ same length and the handler accepts every pair of corresponding elements -/
+theorem C17_equalSlice_iff (s1 s2 : Sl) (h : Int → Int → Bool) :
+    equalSlice s1 s2 h = true ↔
+      s1.els.length = s2.els.length ∧ ∀ i (h1 : i < s1.els.length) (h2 : i < s2.els.length), h s1.els[i] s2.els[i] = true := by
+  rw [equalSlice_eq_spec, equalBy_iff]
+
+theorem C17_equalSlice_refl (s : Sl) (h : Int → Int → Bool) (hr : ∀ a, h a a = true) : equalSlice s s h = true := by
+  rw [C17_equalSlice_iff]; exact ⟨rfl, fun i _ _ => hr _⟩
+
+theorem C17_equalSlice_symm (s1 s2 : Sl) (h : Int → Int → Bool) (hs : ∀ a b, h a b = h b a) :
+    equalSlice s1 s2 h = equalSlice s2 s1 h := by
+  rw [Bool.eq_iff_iff, C17_equalSlice_iff, C17_equalSlice_iff]
+  constructor
+  · rintro ⟨hl, hall⟩; exact ⟨hl.symm, fun i h1 h2 => by rw [hs]; exact hall i h2 h1⟩
+  · rintro ⟨hl, hall⟩; exact ⟨hl.symm, fun i h1 h2 => by rw [hs]; exact hall i h2 h1⟩
+
+/-- `EqualComparableSlice` distinguishes slices with different contents: true exactly for equal element lists -/
+theorem C17_equalComparableSlice_iff (s1 s2 : Sl) : equalComparableSlice s1 s2 = true ↔ s1.els = s2.els := by
+  rw [equalComparableSlice, equalSlice_eq_spec, equalBy_beq_iff]
+
+/-- `EqualMap` (as fixed) ⇔ same key set and the handler accepts the two values under every key -/
+theorem C17_equalMap_iff (m1 m2 : Mp) (h : Int → Int → Bool) (hd1 : (keysOf m1.ents).Nodup) (hd2 : (keysOf m2.ents).Nodup) :
+    equalMap m1 m2 h = true ↔
+      (∀ k, k ∈ keysOf m1.ents ↔ k ∈ keysOf m2.ents) ∧ ∀ k, k ∈ keysOf m1.ents → h (mget m1.ents k) (mget m2.ents k) = true :=
+  equalMap_iff m1 m2 h hd1 hd2
+
+theorem C17_equalMap_refl (m : Mp) (h : Int → Int → Bool) (hr : ∀ a, h a a = true) (hd : (keysOf m.ents).Nodup) :
+    equalMap m m h = true := by
+  rw [equalMap_iff m m h hd hd]; exact ⟨fun _ => Iff.rfl, fun _ _ => hr _⟩
+
+theorem C17_equalMap_symm (m1 m2 : Mp) (h : Int → Int → Bool) (hs : ∀ a b, h a b = h b a)
+    (hd1 : (keysOf m1.ents).Nodup) (hd2 : (keysOf m2.ents).Nodup) : equalMap m1 m2 h = equalMap m2 m1 h := by
+  rw [Bool.eq_iff_iff, equalMap_iff m1 m2 h hd1 hd2, equalMap_iff m2 m1 h hd2 hd1]
+  constructor
+  · rintro ⟨hk, hv⟩; exact ⟨fun k => (hk k).symm, fun k hk2 => by rw [hs]; exact hv k ((hk k).mpr hk2)⟩
+  · rintro ⟨hk, hv⟩; exact ⟨fun k => (hk k).symm, fun k hk2 => by rw [hs]; exact hv k ((hk k).mpr hk2)⟩
+
+/-- maps with different key sets are never equal (the statement the original `EqualMap` violated) -/
+theorem C17_equalMap_different_keys (m1 m2 : Mp) (h : Int → Int → Bool) (hd1 : (keysOf m1.ents).Nodup)
+    (hd2 : (keysOf m2.ents).Nodup) (k : Int) (hk1 : k ∈ keysOf m1.ents) (hk2 : k ∉ keysOf m2.ents) :
+    equalMap m1 m2 h = false := by
+  cases he : equalMap m1 m2 h with
+  | false => rfl
+  | true => exact absurd (((equalMap_iff m1 m2 h hd1 hd2).mp he).1 k |>.mp hk1) hk2
+
+/-- membership tests are the plain list notions -/
+theorem C17_inSlice_iff (l : List Int) (v : Int) (h : Int → Int → Bool) :
+    inSlice l v h = true ↔ ∃ x ∈ l, h v x = true := by simp [inSlice]
+
+theorem C17_inComparableSlice_iff (l : List Int) (v : Int) : inComparableSlice l v = true ↔ v ∈ l := by
+  simp [inComparableSlice]
+
+theorem C17_keyInMap_iff (m : List (Int × Int)) (k : Int) : keyInMap m k = true ↔ k ∈ keysOf m := mhas_iff m k
+
+/-- the compound membership helpers, as coded: an empty container (or no containers) answers false, otherwise
+    the obvious quantifier combination; `AnyValueInMaps` requires *every* map to contain one of the values
+    (this is what its own table test expects, although its comment says "any map") -/
+theorem C17_membership_as_coded (l values : List Int) (h : Int → Int → Bool) (ms : Option (List Mp)) :
+    (allInSlice l values h = true ↔ l ≠ [] ∧ ∀ v ∈ values, ∃ x ∈ l, h v x = true) ∧
+    (anyInSlice l values h = true ↔ l ≠ [] ∧ ∃ v ∈ values, ∃ x ∈ l, h v x = true) ∧
+    (anyValueInMaps ms values h = true ↔ mapsOf ms ≠ [] ∧ ∀ m ∈ mapsOf ms, anyValueInMap m values h = true) := by
+  refine ⟨?_, ?_, ?_⟩
+  · by_cases hl : l = []
+    · subst hl; simp [allInSlice]
+    · have : ¬ l.length = 0 := fun hh => hl (List.length_eq_zero_iff.mp hh)
+      simp [allInSlice, this, hl, inSlice]
+  · by_cases hl : l = []
+    · subst hl; simp [anyInSlice]
+    · have : ¬ l.length = 0 := fun hh => hl (List.length_eq_zero_iff.mp hh)
+      simp [anyInSlice, this, hl, inSlice]
+  · by_cases hl : mapsOf ms = []
+    · simp [anyValueInMaps, hl]
+    · have : ¬ (mapsOf ms).length = 0 := fun hh => hl (List.length_eq_zero_iff.mp hh)
+      simp [anyValueInMaps, this, hl]
+
+/-! ## find.go -/
+
+/-- `FindMinimumInSlice`: a member with the least key (the first such, `argMin`) -/
+theorem C17_min_mem_le (l : List Int) (g : Int → Int) (hne : l ≠ []) :
+    findMinimumInSlice l g ∈ l ∧ (∀ y ∈ l, g (findMinimumInSlice l g) ≤ g y) ∧ findMinimumInSlice l g = argMin g l :=
+  ⟨(findMinimumInSlice_spec l g hne).1, (findMinimumInSlice_spec l g hne).2, findMinimumInSlice_eq_argMin l g⟩
+
+/-- `FindMaximumInSlice`: a member with the greatest key (the first such, `argMax`) -/
+theorem C17_max_mem_le (l : List Int) (g : Int → Int) (hne : l ≠ []) :
+    findMaximumInSlice l g ∈ l ∧ (∀ y ∈ l, g y ≤ g (findMaximumInSlice l g)) ∧ findMaximumInSlice l g = argMax g l :=
+  ⟨(findMaximumInSlice_spec l g hne).1, (findMaximumInSlice_spec l g hne).2, findMaximumInSlice_eq_argMax l g⟩
+
+/-- `FindMaxFromMap` / `FindMinFromMap` (as fixed), for every iteration order of a non-empty map: a value of the
+    map with the greatest / least key — never the zero value of an all-negative map -/
+theorem C17_mapMinMax_mem_le (m : Mp) (g : Int → Int) (hne : m.ents ≠ []) :
+    (findMaxFromMap m g ∈ valsOf m.ents ∧ ∀ v ∈ valsOf m.ents, g v ≤ g (findMaxFromMap m g)) ∧
+    (findMinFromMap m g ∈ valsOf m.ents ∧ ∀ v ∈ valsOf m.ents, g (findMinFromMap m g) ≤ g v) := by
+  have hv : valsOf m.ents ≠ [] := by
+    intro h; apply hne; simpa [valsOf] using h
+  exact ⟨findMaximumInSlice_spec _ g hv, findMinimumInSlice_spec _ g hv⟩
+
+/-- the comparable variants do not depend on the iteration order: any rearrangement of the entries gives
+    the same extremum -/
+theorem C17_mapMax_order_independent (m m' : List (Int × Int)) (hp : m'.Perm m) :
+    findMaxFromComparableMap (some m') = findMaxFromComparableMap (some m) := by
+  by_cases hne : m = []
+  · subst hne; have := hp.eq_nil; subst this; rfl
+  · have hne' : m' ≠ [] := fun h => hne (by subst h; exact hp.symm.eq_nil)
+    have h1 := (C17_mapMinMax_mem_le (some m) id (by simpa [Mp.ents] using hne)).1
+    have h2 := (C17_mapMinMax_mem_le (some m') id (by simpa [Mp.ents] using hne')).1
+    have hpv : (valsOf m').Perm (valsOf m) := hp.map _
+    simp only [Mp.ents, Option.getD_some, id] at h1 h2
+    have a := h1.2 _ (hpv.subset h2.1)
+    have b := h2.2 _ (hpv.symm.subset h1.1)
+    simp only [findMaxFromComparableMap]
+    omega
+
+/-- `FindInSlice`/`FindIndexInSlice`: the first index whose element satisfies the predicate -/
+theorem C17_find_first (p : Int → Bool) (l : List Int) (j : Nat) (v : Int) (h : findFrom p 0 l = some (j, v)) :
+    l[j]? = some v ∧ p v = true ∧ ∀ k < j, ∀ x, l[k]? = some x → p x = false := by
+  obtain ⟨k, hk, h1, h2, h3⟩ := findFrom_some p l 0 j v h
+  have : j = k := by omega
+  subst this
+  exact ⟨h1, h2, h3⟩
+
+/-- … and `-1` exactly when no element satisfies it -/
+theorem C17_find_none (p : Int → Bool) (l : List Int) : findIndexInSlice l p = -1 ↔ ∀ x ∈ l, p x = false := by
+  simp only [findIndexInSlice, findInSlice]
+  constructor
+  · intro h
+    cases hf : findFrom p 0 l with
+    | none => exact (findFrom_none p l 0).mp hf
+    | some q => rw [hf] at h; simp at h
+  · intro h
+    rw [(findFrom_none p l 0).mpr h]
+
+/-- `FindCombinationsInSliceByRange` returns exactly the non-empty sub-sequences whose size lies in the range -/
+theorem C17_combinations (l : List Int) (lo hi : Int) (c : List Int) :
+    c ∈ combosLoop lo hi [] l ↔ c.Sublist l ∧ c ≠ [] ∧ lo ≤ (c.length : Int) ∧ (c.length : Int) ≤ hi := by
+  constructor
+  · intro h
+    obtain ⟨t, hs, hne, hc, hlo, hhi⟩ := combosLoop_sound lo hi l [] c h
+    simp only [List.nil_append] at hc
+    subst hc
+    exact ⟨hs, hne, hlo, hhi⟩
+  · rintro ⟨hs, hne, hlo, hhi⟩
+    simpa using combosLoop_complete lo hi l c hs hne [] (by simpa using hlo) (by simpa using hhi)
+
+/-! ## loop.go -/
+
+/-- `LoopSlice` hands over `(i, s[i])` in index order until the callback answers false -/
+theorem C17_loopSlice_visits (l : List Int) (stop : Nat) : loopSlice l stop = visited stop (indexed l) := by
+  simp only [loopSlice, loopGo_visited, enumFrom_zero_eq_indexed]
+
+theorem C17_reverseLoopSlice_visits (l : List Int) (stop : Nat) :
+    reverseLoopSlice l stop = visited stop (indexed l).reverse := by
+  simp only [reverseLoopSlice, loopGo_visited, enumFrom_zero_eq_indexed]
+
+/-- `LoopMapByOrderedKeyAsc` visits `(i, k, m[k])` for the keys in ascending order (each key once) until the callback
+    answers false -/
+theorem C17_loop_ordered_keys_asc (m : Mp) (stop : Nat) :
+    ∃ ks, loopMapByOrderedKeyAsc m stop = visited stop (triplesOf m.ents ks) ∧
+      ks = isort (fun a b => decide (a ≤ b)) (keysOf m.ents) ∧ ks.Perm (keysOf m.ents) ∧ ks.Pairwise (· ≤ ·) := by
+  refine ⟨_, by simp only [loopMapByOrderedKeyAsc, loopGo_visited], mergeSort_eq_isort_le _, List.mergeSort_perm _ _, ?_⟩
+  have := List.pairwise_mergeSort (le := fun (a b : Int) => decide (a ≤ b)) (by intro a b c; simp; omega)
+    (by intro a b; simp; omega) (keysOf m.ents)
+  exact this.imp (by intro a b h; simpa using h)
+
+theorem C17_loop_ordered_keys_desc (m : Mp) (stop : Nat) :
+    ∃ ks, loopMapByOrderedKeyDesc m stop = visited stop (triplesOf m.ents ks) ∧
+      ks = isort (fun a b => decide (a ≥ b)) (keysOf m.ents) ∧ ks.Perm (keysOf m.ents) ∧ ks.Pairwise (· ≥ ·) := by
+  refine ⟨_, by simp only [loopMapByOrderedKeyDesc, loopGo_visited], mergeSort_eq_isort_ge _, List.mergeSort_perm _ _, ?_⟩
+  have := List.pairwise_mergeSort (le := fun (a b : Int) => decide (a ≥ b)) (by intro a b c; simp; omega)
+    (by intro a b; simp; omega) (keysOf m.ents)
+  exact this.imp (by intro a b h; simpa using h)
+
+/-- every visited triple pairs a key with *its own* value (the statement the original
+    `LoopMapByOrderedValueAsc/Desc` violated) -/
+theorem C17_loop_pairs_match (m : List (Int × Int)) (keys : List Int) (t : Nat × Int × Int) (ht : t ∈ triplesOf m keys) :
+    t.2.2 = mget m t.2.1 := by
+  simp only [triplesOf, List.mem_map] at ht
+  obtain ⟨p, _, rfl⟩ := ht
+  rfl
+
+/-- **ordered map loops** (`LoopMapByOrderedValueAsc/Desc` as fixed, `LoopMapByKeyGetterAsc/Desc`,
+    `LoopMapByValueGetterAsc/Desc`): for every map with distinct keys, every key order `sort.Slice` may return
+    (a rearrangement of the keys that is sorted by the criterion) and every stopping point, what the callback
+    sees passes the judge `visitedPairsMatch`: positions 0,1,2,…, each `(k, m[k])` at most once, exactly
+    `min(stop, len)` visits, criterion monotone, nothing unvisited that should have come earlier -/
+theorem C17_loop_ordered_pairs (m : List (Int × Int)) (hd : (keysOf m).Nodup) (sortedKeys : List Int)
+    (hp : sortedKeys.Perm (keysOf m)) (c : Int → Int → Int) (desc : Bool) (stop : Nat)
+    (hs : sortedKeys.Pairwise (fun a b => keyOf m c desc a ≤ keyOf m c desc b)) :
+    visitedPairsMatch m (some c) desc stop (loopMapSorted (some m) sortedKeys stop) = true := by
+  simp only [loopMapSorted, loopGo_visited]
+  exact visited_triples_match m hd sortedKeys hp (some c) desc stop (by intro c' hc; cases hc; exact hs)
+
+/-- `LoopMap`: for every iteration order `m'` of the map the visits pass the judge (no order promised) -/
+theorem C17_loopMap_pairs (m m' : List (Int × Int)) (hd : (keysOf m).Nodup) (hp : m'.Perm m) (stop : Nat) :
+    visitedPairsMatch m none false stop (loopMap (some m') stop) = true := by
+  have hget : ∀ e ∈ m', mget m e.1 = e.2 := fun e he => mget_of_mem m hd e (hp.subset he)
+  have : loopMap (some m') stop = visited stop (triplesOf m (keysOf m')) := by
+    simp only [loopMap, loopGo_visited, triplesOf]
+    show visited stop (enumEntries 0 m') = _
+    rw [enumEntries_eq m m' 0 hget]
+  rw [this]
+  exact visited_triples_match m hd (keysOf m') (hp.map _) none false stop (by intro c hc; cases hc)
+
+/-- what an accepted verdict means: the callback saw positions 0,1,2,…, only entries of the map, no key twice, and
+    the promised number of visits -/
+theorem C17_visitedPairsMatch_sound (m : List (Int × Int)) (crit : Option (Int → Int → Int)) (desc : Bool) (stop : Nat)
+    (vis : List (Nat × Int × Int)) (h : visitedPairsMatch m crit desc stop vis = true) :
+    vis.map (·.1) = List.range vis.length ∧ (∀ t ∈ vis, (t.2.1, t.2.2) ∈ m) ∧ (vis.map (·.2.1)).Nodup ∧
+      vis.length = (if stop = 0 ∨ stop ≥ m.length then m.length else stop) :=
+  visitedPairsMatch_sound m crit desc stop vis h
+
+/-! ## random.go -/
+
+/-- `ChooseRandomIndexN` (as fixed): `n` pairwise distinct indices of the slice, for every list of draws -/
+theorem C17_chooseN_distinct_members (l : List Int) (n : Nat) (draws : List Nat) (hne : l ≠ []) (hn : n ≤ l.length)
+    (hd : ∀ d ∈ draws, d < l.length) :
+    ∃ out, chooseRandomIndexN l (n : Int) draws = some (some out) ∧ out.length = n ∧ out.Nodup ∧
+      ∀ x ∈ out, 0 ≤ x ∧ x < (l.length : Int) :=
+  chooseRandomIndexN_spec l n draws hne hn hd
+
+/-- the `…N` map helpers (as fixed): the first `n` keys of the iteration — `n` distinct keys of the map, for every
+    iteration order; `n = 0` gives the empty slice -/
+theorem C17_chooseMapKeyN_distinct_members (m : List (Int × Int)) (n : Nat) (hn : n ≤ m.length) (hd : (keysOf m).Nodup) :
+    ∃ out, chooseRandomMapKeyN (some m) (n : Int) = some (some out) ∧ out.length = n ∧ out.Nodup ∧ ∀ k ∈ out, k ∈ keysOf m := by
+  have hn' : ¬ ((n : Int) > (m.length : Int) ∨ (n : Int) < 0) := by omega
+  refine ⟨(keysOf m).take n, by simp only [chooseRandomMapKeyN, hn', if_false, Int.toNat_natCast], ?_, hd.sublist (List.take_sublist _ _),
+    fun k hk => List.mem_of_mem_take hk⟩
+  simp [keysOf]; omega
+
+/-- `ChooseRandomSliceElementN`: for every iteration order of the index set (pairwise distinct valid positions) the
+    answer passes the judge clause `distinct-positions`: `n` elements taken from `n` different positions -/
+theorem C17_chooseElementN_distinct_positions (l : List Int) (n : Nat) (order : List Nat) (hn1 : 1 ≤ n) (hn : n ≤ l.length)
+    (hnd : order.Nodup) (hr : ∀ i ∈ order, i < l.length) (hlen : n ≤ order.length) :
+    ∃ out, chooseRandomSliceElementN l (n : Int) order = some out ∧ out.length = n ∧ subMultiset out l = true := by
+  have hg : ¬ (l.length = 0 ∨ (n : Int) ≤ 0 ∨ (n : Int) > (l.length : Int)) := by omega
+  refine ⟨(order.take n).map (fun i => l.getD i 0), by simp only [chooseRandomSliceElementN, hg, if_false, Int.toNat_natCast],
+    by simp only [List.length_map, List.length_take]; omega, ?_⟩
+  exact map_nodup_indices_subMultiset l (order.take n) (hnd.sublist (List.take_sublist _ _))
+    (fun i hi => hr i (List.mem_of_mem_take hi))
+
+/-- the judge predicates of the suite `c17-random`, as statements -/
+theorem C17_distinctMembers_iff (out pool : List Int) :
+    distinctMembers out pool = true ↔ out.Nodup ∧ ∀ x ∈ out, x ∈ pool := distinctMembers_iff out pool
+
+theorem C17_subMultiset_iff (a b : List Int) : subMultiset a b = true ↔ ∃ rest, (a ++ rest).Perm b := subMultiset_iff a b
+
+/-! ## sort.go -/
+
+/-- the judge predicate of `Asc`/`AscByClone` (`Desc…` alike): a rearrangement of the input with non-decreasing keys -/
+theorem C17_sort_sorted_perm (g : Int → Int) (l out : List Int) :
+    (sortedPermAsc g l out = true ↔ out.Perm l ∧ out.Pairwise (fun a b => g a ≤ g b)) ∧
+    (sortedPermDesc g l out = true ↔ out.Perm l ∧ out.Pairwise (fun a b => g a ≥ g b)) :=
+  ⟨sortedPermAsc_iff g l out, sortedPermDesc_iff g l out⟩
+
+/-- … and it accepts what a correct sort returns (the predicate is satisfiable for every input) -/
+theorem C17_sort_spec_satisfiable (g : Int → Int) (l : List Int) :
+    sortedPermAsc g l (l.mergeSort (fun a b => decide (g a ≤ g b))) = true := sortedPermAsc_mergeSort g l
+
+theorem C17_shuffle_perm (a b : List Int) : isPermOf a b = true ↔ a.Perm b := isPermOf_iff a b
+
+/-! ## topological.go -/
+
+/-- the judge predicate for a returned order: a rearrangement of the indices in which every item comes before
+    everything it depends on (documented direction) -/
+theorem C17_topo_respects (items : List (Int × List Int)) (out : List Int) :
+    validOrder items out = true ↔ out.Perm (items.map (·.1)) ∧ ∀ e ∈ edgesOf items, posOf out e.1 < posOf out e.2 :=
+  validOrder_iff items out
+
+/-- an edge of the judge is a dependency on a present index -/
+theorem C17_topo_edges (items : List (Int × List Int)) (a b : Int) :
+    (a, b) ∈ edgesOf items ↔ ∃ it ∈ items, it.1 = a ∧ b ∈ it.2 ∧ b ∈ items.map (·.1) := mem_edgesOf items a b
+
+/-- whenever the judge accepts an order the dependency graph has no cycle (no item depends on itself through a
+    chain of dependencies); hence for cyclic input no answer but the error passes -/
+theorem C17_topo_order_acyclic (items : List (Int × List Int)) (out : List Int)
+    (h : topoVerdict items (some out) = true) : ∀ x, ¬ Reach (edgesOf items) x x := by
+  simp only [topoVerdict, Bool.and_eq_true] at h
+  exact validOrder_acyclic items out h.2
+
+/-- error ⇔ cycle: for distinct indices the judge accepts `ErrCircularDependencyDetected` exactly when the
+    dependencies contain a cycle — equivalently, exactly when no order respects all dependencies (the search the
+    judge runs, Kahn's algorithm, is proved complete) -/
+theorem C17_topo_cycle_iff_error (items : List (Int × List Int)) (hnd : (items.map (·.1)).Nodup) :
+    (topoVerdict items none = true ↔ ∃ x, Reach (edgesOf items) x x) ∧
+    (topoVerdict items none = true ↔ ¬ ∃ out, validOrder items out = true) :=
+  ⟨topoVerdict_none_iff_cycle items hnd, topoVerdict_none_iff items hnd⟩
+
+/-- two items with the same index: only the error is accepted (the code cannot return as many items as it got) -/
+theorem C17_topo_duplicate_index (items : List (Int × List Int)) (hdup : ¬ (items.map (·.1)).Nodup) (out : List Int) :
+    topoVerdict items none = true ∧ topoVerdict items (some out) = false := by
+  have hd : distinct (items.map (·.1)) = false := by
+    cases h : distinct (items.map (·.1)) with
+    | false => rfl
+    | true => exact absurd ((distinct_iff _).mp h) hdup
+  simp [topoVerdict, hd]
+
+/-- *partial* (model level): that the depth-first model `topologicalSort` itself passes `topoVerdict` for every
+    iteration order of its node map is not proved in Lean; it is checked on every run by the judge clause
+    `model-explains` (exhaustively for all dependency graphs on ≤ 3 nodes, a seventh / all of the 4-node graphs,
+    and random graphs up to 12 nodes).  What is proved here: the model never reports an error for the empty input
+    and the answers it gives on the package's own example. -/
+theorem C17_topo_model_partial :
+    topologicalSort [] [] = some [] ∧
+    topoVerdict [(2, [4]), (1, [2, 3]), (3, [4]), (4, [5]), (5, [])]
+      (topologicalSort [(2, [4]), (1, [2, 3]), (3, [4]), (4, [5]), (5, [])] [3, 5, 1, 2, 4]) = true := by
+  constructor
+  · rfl
+  · decide
+
+/-! ## non-vacuity -/
+
+example : deduplicateSlice (some [1, 1, 2, 3, 2]) = some [1, 2, 3] := by decide
+example : (deduplicateSliceInPlaceWithCompare (some [1, 1, 2, 3, 2]) (· == ·)).map InPlace.result = some [1, 2, 3] := by decide
+example : convertSliceToBatches (some [1, 2, 3, 4, 5]) 2 = some [[1, 2], [3, 4], [5]] := by decide
+example : (reverseSlice (some [1, 2, 3])).map InPlace.result = some [3, 2, 1] := by decide
+example : equalMap (some [(0, 0)]) (some [(1, 0)]) (· == ·) = false := by decide
+example : findMaxFromComparableMap (some [(0, -1), (1, -2)]) = -1 := by decide
+example : (dropSliceByIndices (some [5, 6, 7]) (some [0, 2])).map InPlace.result = some [6] := by decide
+example : loopSlice [5, 6, 7] 2 = [(0, 5), (1, 6)] := by decide
+example : loopMap (some [(0, 5), (2, 6), (1, 7)]) 2 = [(0, 0, 5), (1, 2, 6)] := by decide
+example : chooseRandomIndexN [10, 11, 12] 3 [1, 1, 2] = some (some [1, 0, 2]) := by decide
+example : topologicalSort [(1, [2]), (2, [1])] [1, 2] = none := by decide
+example : topologicalSort [(2, [4]), (1, [2, 3]), (3, [4]), (4, [5]), (5, [])] [5, 1, 2, 3, 4] = some [1, 2, 3, 4, 5] := by decide
+example : topoVerdict [(1, [2]), (2, [1])] none = true := by decide
+example : topoVerdict [(1, [2]), (2, [])] none = false := by decide
+example : validOrder [(1, [2]), (2, [])] [2, 1] = false := by decide
 
 end MV.Props.C17
